@@ -16,7 +16,14 @@ GM = 'sampling_of_alternatives.generate_model'
 SC = 'sampling_of_alternatives.sampling_context'
 
 
+#: obligations whose failure contradicts the property (rule, construct pattern, why); every other failure is 'not recognised'
+POSITIVE: list[tuple[str, str, str]] = [
+    ('C19.R3', r'^GenerateModel\.', 'a column name built for an index over one sample carries (or lacks) the prefix of the other sample'),
+]
+
+
 def run(ctx: Ctx) -> None:
+    ctx.positive_table = list(POSITIVE)
     prog = ctx.prog
     ctx.rule('C19.R1', 'protocol shape: in every stratum the correction ln(k/n) is defined from the requested sample size and the stratum size before the chosen alternative '
              'is set aside, the chosen alternative gets the correction of its own stratum (assignment inside the stratum loop, under `chosen in stratum`), the other draws of '
@@ -63,7 +70,9 @@ def run(ctx: Ctx) -> None:
             else f'handling of the chosen alternative: {det or "no `if chosen in stratum.subset` in the stratum loop"}', det)
     writes = [n for n in ast.walk(f.node) if isinstance(n, ast.Assign) and unparse(n.targets[0]) == f'{CH}[LOG_PROBA_COL]']
     ok = len(writes) == 1 and bool(chosen_if) and writes[0] in chosen_if[0].body
-    ctx.add('C19.R1', 'sample_alternatives:chosen-correction-site', ok, (f.file, writes[0].lineno if writes else f.line), 'the correction of the chosen alternative is assigned where its stratum is known' if ok else 'the correction of the chosen alternative is assigned outside its stratum (stale value of another stratum)', 'site')
+    outside = len(writes) == 1 and len(chosen_if) == 1 and not any(x is writes[0] for x in ast.walk(chosen_if[0]))
+    ctx.add('C19.R1', 'sample_alternatives:chosen-correction-site', ok if (ok or outside) else None, (f.file, writes[0].lineno if writes else f.line), 'the correction of the chosen alternative is assigned where its stratum is known' if ok else
+            ('the correction of the chosen alternative is assigned outside the test `chosen in stratum.subset`: it receives the value of whichever stratum was treated last' if outside else 'where the correction of the chosen alternative is assigned is not in the expected form'), 'site', positive=outside)
     smp = [n for n in ast.walk(lp) if isinstance(n, ast.Call) and call_name(n) == 'sample']
     ok = len(smp) == 1
     if ok:
@@ -246,10 +255,15 @@ return loglogit(_C, None, 0)
     ctx.add('C19.R2', 'GenerateModel.get_logit', ok, lg, 'utility i is corrected by the correction column of the same i; the chosen alternative is number 0' if ok else 'get_logit changed', 'logit')
 
     # ---- R4
-    ok = has(pi.node, 'self.partition = [StratumTuple(subset=_S, sample_size=_K) for _S, _K in zip(self.the_partition, self.sample_sizes)]')
-    ctx.add('C19.R4', 'SamplingContext:partition', ok, pi, 'main strata = zip(the_partition, sample_sizes)' if ok else 'main strata are no longer zip(the_partition, sample_sizes)', 'main')
-    ok = has(pi.node, 'self.second_partition = [StratumTuple(subset=_S, sample_size=_K) for _S, _K in zip(self.mev_partition, self.mev_sample_sizes)]')
-    ctx.add('C19.R4', 'SamplingContext:second_partition', ok, pi, 'second strata = zip(mev_partition, mev_sample_sizes)' if ok else 'second strata are not zip(mev_partition, mev_sample_sizes): the second sample uses other sizes than requested', 'second')
+    for attr, want, what in (('self.partition', ('self.the_partition', 'self.sample_sizes'), 'main'), ('self.second_partition', ('self.mev_partition', 'self.mev_sample_sizes'), 'second')):
+        ok = has(pi.node, f'{attr} = [StratumTuple(subset=_S, sample_size=_K) for _S, _K in zip({want[0]}, {want[1]})]')
+        hb = None if ok else find(pi.node, f'{attr} = [StratumTuple(subset=_S, sample_size=_K) for _S, _K in zip(__P, __K)]')
+        got = (unparse(hb['__P'][1]), unparse(hb['__K'][1])) if hb is not None else None
+        known = {'self.the_partition', 'self.sample_sizes', 'self.mev_partition', 'self.mev_sample_sizes'}
+        wrong = got is not None and got != want and set(got) <= known
+        ctx.add('C19.R4', f'SamplingContext:{attr[5:]}', ok if (ok or wrong) else None, pi, f'{what} strata = zip({want[0][5:]}, {want[1][5:]})' if ok else
+                (f'the {what} strata are built as zip({got[0]}, {got[1]}), not zip({want[0]}, {want[1]}): the {what} sample is drawn with other sizes / other segments than requested' if wrong else f'the construction of the {what} strata is not in the expected form'),
+                what, positive=wrong)
     cfg = cfg_of(pi.node)
     pdef = [n for n in walk_no_nested(pi.node) if isinstance(n, ast.Assign) and unparse(n.targets[0]) == 'self.partition']
     chk = [n for n in walk_no_nested(pi.node) if isinstance(n, ast.Expr) and unparse(n.value) == 'self.check_partition()']
